@@ -4,6 +4,6 @@
 id=$1; patch=$2; label=$3
 W=/tmp/repo-eval
 cd $W && git checkout -q --detach $(git -C /repo rev-parse HEAD) && git checkout -q -- . && git apply "$patch" || { echo "EVAL $label PATCH-FAILED"; exit 1; }
-cd /verif && s=$(date +%s) && VERIF_REPO=$W VERIF_EVIDENCE_DIR=/tmp/eval-evidence VERIF_REPLAY_DIR=/tmp/eval-replays ./check $id --tier quick > /tmp/seed-eval-$label.log 2>&1; rc=$?
+cd /verif && s=$(date +%s) && VERIF_REPO=$W VERIF_EVIDENCE_DIR=/tmp/eval-evidence VERIF_REPLAY_DIR=/tmp/eval-replays VERIF_SMT_DIR=/tmp/eval-smt ./check $id --tier quick > /tmp/seed-eval-$label.log 2>&1; rc=$?
 cd $W && git checkout -q -- .
 echo "EVAL $label rc=$rc wall=$(( $(date +%s) - s ))s $(grep -c '^VIOLATION' /tmp/seed-eval-$label.log) violations; $(grep -m1 '^VIOLATION\|^INCONCLUSIVE' /tmp/seed-eval-$label.log | cut -c1-260)"
